@@ -532,7 +532,7 @@ pub fn reader_g(cx: &mut Ctx, kind: usize, data: &[u8], gen: Option<(usize, u64,
     if gen.is_some() { cx.sum.dist("reader_big_input"); }
     // sbr_preset (two of its five presets) and zc_default are the modelled state machines with preset numbers
     // sbr_over_range is the buffered-reader model over the range slice (theorem range_read_is_cursor_read)
-    if kind >= 6 && kind != 10 && kind != 11 && kind != 12 { cx.sum.cell_status(&cell, "S-only"); }
+    if kind > 6 && kind != 10 && kind != 11 && kind != 12 { cx.sum.cell_status(&cell, "S-only"); }
     for (name, _) in ops { if matches!(name.as_str(), "vec" | "utf8" | "crc" | "vcrc" | "usage" | "rinfo" | "set_total" | "inner_pos" | "add_range" | "next_range" | "minfo" | "reads" | "direct") { cx.sum.dist(&format!("reader_op_{}", name)); } }
     let mut obs = vec![];
     let r = guarded(|| -> Result<(), String> {
